@@ -10,8 +10,154 @@
    oracles is spelled out by C14_hypotheses_sample / _feature below (validated numerically on every run of
    the correspondence check).  [retained_mask k env] = diag(1 if S_i > tol else 0): the
    code zeroes the components whose eigenvalue does not exceed tol. *)
+
+(* ======================================================================================
+   Part D (extension, round 3) - control flow and shape book-keeping of PCovR.fit.
+   Model: Model/PCovRFit.v (layer D, exact: nat / Z / Q / lists), mirrors fit,
+   _decompose_full, _decompose_truncated and the reshape / matmul chain of both _fit_* routines
+   statement by statement.  [fit_ctrl n m nc sv sp rg] = what fit does with n_components = nc,
+   svd_solver = sv, space = sp, regressor kind rg on an n x m X: the ValueError it raises or
+   (n_components_, fit_svd_solver_, space_).  [fit_shapes] = the shapes of W, Yhat, pxt_, ptx_,
+   pty_, pxy_, components_, singular_values_ ; [method_shapes] = the shapes returned by
+   transform, inverse_transform, predict(X), predict(T=T) on q rows.
+   Stated before mathcomp is loaded so that <=, [ _ ; _ ] ... are the standard library's.     *)
+From Coq Require Import ZArith QArith List Bool.
+Import ListNotations.
+From Verif Require Import PCovRFit PCovRFitP.
+
+(* what an admissible integer n_components is, given the resolved solver *)
+Theorem C14_int_ok_meaning :
+  forall (n m : nat) (sv : solver) (z : Z),
+    int_ok n m sv z <->
+    match fit_solver n m sv (VInt z) with
+    | SvFull => (0 <= z <= mn n m)%Z
+    | SvRandomized => (1 <= z <= mn n m)%Z
+    | SvArpack => (1 <= z < mn n m)%Z
+    | _ => False
+    end.
+Proof. intros; reflexivity. Qed.
+Print Assumptions C14_int_ok_meaning.
+
+(* fit accepts an integer n_components exactly under these conditions, and then
+   n_components_ = it, fit_svd_solver_ and space_ are as resolved *)
+Theorem C14_fit_accepts :
+  forall (n m : nat) (z : Z) (sv : solver) (sp : spacep) (rg : regk),
+    sp <> SpOther -> rg <> RgOther -> int_ok n m sv z ->
+    fit_ctrl n m (NCInt z) sv sp rg
+    = Ok (mk_ctrl (Z.to_nat z) (fit_solver n m sv (VInt z)) (fit_space n m sp)).
+Proof. exact fit_ctrl_int_accepts. Qed.
+Print Assumptions C14_fit_accepts.
+
+Theorem C14_fit_rejects :
+  forall (n m : nat) (z : Z) (sv : solver) (sp : spacep) (rg : regk) (c : ctrl),
+    fit_ctrl n m (NCInt z) sv sp rg = Ok c ->
+    sp <> SpOther /\ rg <> RgOther /\ int_ok n m sv z.
+Proof. exact fit_ctrl_int_rejects. Qed.
+Print Assumptions C14_fit_rejects.
+
+(* the order in which the code tests: space, then regressor type, then the solver dispatch *)
+Theorem C14_fit_error_order :
+  forall (n m : nat) (nc : ncomp) (sv : solver) (sp : spacep) (rg : regk),
+    (sp = SpOther -> fit_ctrl n m nc sv sp rg = Err ErrSpace)
+    /\ (sp <> SpOther -> rg = RgOther -> fit_ctrl n m nc sv sp rg = Err ErrRegressor)
+    /\ (sp <> SpOther -> rg <> RgOther -> sv = SvOther -> fit_ctrl n m nc sv sp rg = Err ErrSolver).
+Proof. exact fit_ctrl_error_order. Qed.
+Print Assumptions C14_fit_error_order.
+
+(* every k of the property's quantifier is accepted, with n_components_ = k *)
+Theorem C14_fit_quantifier :
+  forall (n m k : nat) (sv : solver) (sp : spacep) (rg : regk),
+    (1 <= k <= Nat.min n m)%nat -> sp <> SpOther -> rg <> RgOther ->
+    sv = SvAuto \/ sv = SvFull \/ sv = SvRandomized \/ (sv = SvArpack /\ (k < Nat.min n m)%nat) ->
+    exists fs, fit_ctrl n m (NCInt (Z.of_nat k)) sv sp rg = Ok (mk_ctrl k fs (fit_space n m sp))
+               /\ fs <> SvAuto /\ fs <> SvOther /\ (sv <> SvAuto -> fs = sv).
+Proof. exact fit_ctrl_quantifier. Qed.
+Print Assumptions C14_fit_quantifier.
+
+(* n_components = None *)
+Theorem C14_fit_default_components :
+  forall (n m : nat) (sv : solver) (sp : spacep) (rg : regk),
+    (1 <= Nat.min n m)%nat -> sp <> SpOther -> rg <> RgOther ->
+    sv = SvAuto \/ sv = SvFull \/ sv = SvRandomized ->
+    exists fs, fit_ctrl n m NCNone sv sp rg = Ok (mk_ctrl (Nat.min n m) fs (fit_space n m sp)).
+Proof. exact fit_ctrl_default. Qed.
+Print Assumptions C14_fit_default_components.
+
+Theorem C14_fit_default_components_arpack :
+  forall (n m : nat) (sp : spacep) (rg : regk),
+    (2 <= Nat.min n m)%nat -> sp <> SpOther -> rg <> RgOther ->
+    fit_ctrl n m NCNone SvArpack sp rg
+    = Ok (mk_ctrl (Nat.min n m - 1) SvArpack (fit_space n m sp)).
+Proof. exact fit_ctrl_default_arpack. Qed.
+Print Assumptions C14_fit_default_components_arpack.
+
+Theorem C14_auto_solver_small :
+  forall (n m : nat) (v : ncv), (Nat.max n m <= 500)%nat -> fit_solver n m SvAuto v = SvFull.
+Proof. exact fit_solver_small. Qed.
+Print Assumptions C14_auto_solver_small.
+
+Theorem C14_auto_space :
+  forall (n m : nat) (sp : spacep), sp = SpNone \/ sp = SpAuto ->
+    fit_space n m sp = false <-> (m < n)%nat.
+Proof. exact fit_space_auto. Qed.
+Print Assumptions C14_auto_space.
+
+(* shapes: every reshape / product in fit succeeds and gives these shapes, for both spaces, a
+   1-D or 2-D target and every admissible way for the weights to arrive *)
+Theorem C14_fit_shapes :
+  forall (n m : nat) (c : ctrl) (y : yform) (w : wform),
+    (0 < n)%nat -> (0 < m)%nat -> (c_k c <= Nat.min n m)%nat -> w_ok m y w ->
+    fit_shapes n m c y w
+    = Some (mk_fitted c [m; pcols y] [n; pcols y] [m; c_k c] [c_k c; m] (c_k c :: ytail y)
+                      (m :: ytail y) [c_k c; m] [c_k c]).
+Proof. exact fit_shapes_spec. Qed.
+Print Assumptions C14_fit_shapes.
+
+Theorem C14_shape_vocabulary :
+  forall (m p : nat) (s : shape),
+    (pcols Y1 = 1%nat /\ pcols (Y2 p) = p) /\ (ytail Y1 = [] /\ ytail (Y2 p) = [p])
+    /\ (w_ok m (Y2 p) (WGiven s) <-> s = [m; p] \/ (p = 1%nat /\ s = [m]))
+    /\ (w_ok m Y1 (WGiven s) <-> s = [m; 1%nat] \/ (1%nat = 1%nat /\ s = [m]))
+    /\ (forall y, w_ok m y WRegressor /\ w_ok m y WLstsq).
+Proof. intros; repeat split; auto. Qed.
+Print Assumptions C14_shape_vocabulary.
+
+(* the clause: a one-dimensional y yields one-dimensional predictions and coefficient vectors
+   (ytail Y1 = []), a two-dimensional y two-dimensional ones (ytail (Y2 p) = [p]) *)
+Theorem C14_shapes_1d :
+  forall (n m k : nat) (sv : solver) (sp : spacep) (rg : regk) (w : wform) (q : nat),
+    (1 <= k <= Nat.min n m)%nat -> sp <> SpOther -> rg <> RgOther ->
+    sv = SvAuto \/ sv = SvFull \/ sv = SvRandomized \/ (sv = SvArpack /\ (k < Nat.min n m)%nat) ->
+    forall y, w_ok m y w ->
+    exists f, fit_model n m (NCInt (Z.of_nat k)) sv sp rg y w = Ok f
+      /\ c_k (f_ctrl f) = k
+      /\ f_pxt f = [m; k] /\ f_ptx f = [k; m]
+      /\ f_pxy f = m :: ytail y /\ f_pty f = k :: ytail y
+      /\ method_shapes m f q = Some [[q; k]; [q; m]; q :: ytail y; q :: ytail y].
+Proof. exact shapes_1d. Qed.
+Print Assumptions C14_shapes_1d.
+
+Example C14_nonvacuous_fit_model :
+  fit_model 6 3 (NCInt 2) SvAuto SpNone RgNone Y1 WRegressor
+  = Ok (mk_fitted (mk_ctrl 2 SvFull false) [3; 1]%nat [6; 1]%nat [3; 2]%nat [2; 3]%nat [2]%nat [3]%nat
+                  [2; 3]%nat [2]%nat).
+Proof. exact fit_model_example_1d. Qed.
+Print Assumptions C14_nonvacuous_fit_model.
+
+Example C14_nonvacuous_rejections :
+  fit_model 6 3 (NCInt 4) SvFull SpNone RgNone Y1 WRegressor = Err ErrNCompRange
+  /\ fit_model 6 3 (NCInt 3) SvArpack SpNone RgNone Y1 WRegressor = Err ErrArpackAll
+  /\ fit_model 6 3 (NCFloat 2.5) SvFull SpNone RgNone Y1 WRegressor = Err ErrNCompType
+  /\ fit_model 6 3 (NCInt 9) SvOther SpNone RgNone Y1 WRegressor = Err ErrSolver
+  /\ fit_model 6 3 (NCInt 9) SvOther SpOther RgOther Y1 WRegressor = Err ErrSpace
+  /\ fit_model 6 3 (NCInt 2) SvFull SpSample RgPrecomputed (Y2 2) (WGiven [3]%nat) = Err ErrReshape.
+Proof. exact fit_model_example_rejections. Qed.
+Print Assumptions C14_nonvacuous_rejections.
+
+(* ======================================================================================
+   Part A - the algebra of the projectors (layer A, over an arbitrary real closed field)    *)
 From mathcomp Require Import all_ssreflect all_algebra.
-From Verif Require Import MExp MExpMx PCovR PCovRP PCovRProg KyFan C14Thm C04Thm PCovRNested PCovRExample.
+From Verif Require Import MExp MExpMx PCovR PCovRP PCovRProg KyFan C14Thm C04Thm PCovRNested PCovRExample C14ExtP C14ExtExample.
 Import GRing.Theory Num.Theory.
 Local Open Scope ring_scope.
 
@@ -182,3 +328,121 @@ Example C14_nonvacuous :
       & [/\ forall i, e_tol env < e_S 1 env i 0, e_a env = mix & e_X 2 1 env != 0]].
 Proof. exact (fun F mix => ex_intro _ (ex_env mix) (ex_nonvacuous mix)). Qed.
 Print Assumptions C14_nonvacuous.
+
+(* ======================================================================================
+   Extension (round 3), layer A                                                            *)
+
+(* sklearn's transform on data that is NOT centred: the training mean is subtracted first *)
+Theorem C14_transform_general :
+  forall (F : rcfType) (n m p k : nat) (env : env_mx F) (sp : bool) (q : nat) (Z : mexp q m),
+    eval_mx env (transform_prog n m p k sp Z)
+    = (eval_mx env Z - const_mx 1 *m e_mean n m env) *m eval_mx env (pxt_prog n m p k sp).
+Proof. exact transform_general. Qed.
+Print Assumptions C14_transform_general.
+
+(* round trip for an ARBITRARY latent T (not only one produced by transform): retained
+   coordinates come back, masked ones are zeroed; all retained => exactly T *)
+Theorem C14_roundtrip_any_T :
+  forall (F : rcfType) (n m p k : nat) (env : env_mx F) (sp : bool) (q : nat) (T : mexp q k),
+    centred n m env -> fit_oracle n m p k env sp ->
+    eval_mx env (transform_prog n m p k sp (inverse_prog n m k sp T))
+    = eval_mx env T *m retained_mask k env.
+Proof. exact roundtrip_any. Qed.
+Print Assumptions C14_roundtrip_any_T.
+
+Theorem C14_roundtrip_any_T_retained :
+  forall (F : rcfType) (n m p k : nat) (env : env_mx F) (sp : bool) (q : nat) (T : mexp q k),
+    centred n m env -> fit_oracle n m p k env sp -> (forall i, e_tol env < e_S k env i 0) ->
+    eval_mx env (transform_prog n m p k sp (inverse_prog n m k sp T)) = eval_mx env T.
+Proof. exact roundtrip_any_retained. Qed.
+Print Assumptions C14_roundtrip_any_T_retained.
+
+(* the training reconstruction and prediction are Q M Q^T X and Q M Q^T Y, M the retained
+   mask and Q = V (sample space) or X C^-1/2 V (feature space), whose retained columns are
+   orthonormal: an orthogonal projection in BOTH spaces, masked components included *)
+Theorem C14_own_projector :
+  forall (F : rcfType) (n m p k : nat) (env : env_mx F) (sp : bool),
+    centred n m env -> fit_oracle n m p k env sp ->
+    let T := transform_prog n m p k sp (eX n m) in
+    let Q := own_Q n m k env sp in
+    let P := Q *m retained_mask k env *m Q^T in
+    [/\ eval_mx env (inverse_prog n m k sp T) = P *m e_X n m env,
+        eval_mx env (predict_t_prog n m p k sp T) = P *m e_Y n p env
+      & Q^T *m Q *m retained_mask k env = retained_mask k env].
+Proof.
+  exact (fun F n m p k env sp hc ho =>
+           let: conj hx hy := own_projector hc ho in And3 hx hy (own_QM ho)).
+Qed.
+Print Assumptions C14_own_projector.
+
+Theorem C14_own_Q_meaning :
+  forall (F : rcfType) (n m k : nat) (env : env_mx F),
+    own_Q n m k env true = e_Vs n k env
+    /\ own_Q n m k env false
+       = e_X n m env *m eval_mx env (cisqrt_prog m) *m e_Vf m k env.
+Proof. by move=> F n m k env; rewrite cisqrt_formula. Qed.
+Print Assumptions C14_own_Q_meaning.
+
+(* truncating an oracle answer (U[:, :k], S[:k], Vt[:k]) gives an oracle answer, both spaces *)
+Theorem C14_truncation_is_oracle :
+  forall (F : rcfType) (n m p : nat) (env : env_mx F) (sp : bool) (d j : nat),
+    nested_chain n m env j d -> fit_oracle n m p (j + d) env sp -> fit_oracle n m p j env sp.
+Proof. exact fit_oracle_chain. Qed.
+Print Assumptions C14_truncation_is_oracle.
+
+Theorem C14_nested_chain_meaning :
+  forall (F : rcfType) (n m : nat) (env : env_mx F) (j d : nat),
+    (nested_chain n m env j 0 <-> True)
+    /\ (nested_chain n m env j d.+1 <-> nested_oracle n m j env /\ nested_chain n m env (j + 1) d).
+Proof. by []. Qed.
+Print Assumptions C14_nested_chain_meaning.
+
+(* losses never increase from k to k+1: BOTH spaces, no assumption that the components are
+   retained (supersedes C14_losses_monotone_in_k, which is the case sp = true, all retained) *)
+Theorem C14_losses_monotone_both_spaces :
+  forall (F : rcfType) (n m p : nat) (env : env_mx F) (k : nat) (sp : bool),
+    centred n m env -> nested_oracle n m k env -> fit_oracle n m p (k + 1) env sp ->
+    train_loss_x_in n m p env sp (k + 1) <= train_loss_x_in n m p env sp k
+    /\ train_loss_y_in n m p env sp (k + 1) <= train_loss_y_in n m p env sp k.
+Proof. exact losses_monotone_all. Qed.
+Print Assumptions C14_losses_monotone_both_spaces.
+
+(* ... and hence from any j to any j + d (induction on d) *)
+Theorem C14_losses_antitone :
+  forall (F : rcfType) (n m p : nat) (env : env_mx F) (sp : bool) (d j : nat),
+    centred n m env -> nested_chain n m env j d -> fit_oracle n m p (j + d) env sp ->
+    train_loss_x_in n m p env sp (j + d) <= train_loss_x_in n m p env sp j
+    /\ train_loss_y_in n m p env sp (j + d) <= train_loss_y_in n m p env sp j.
+Proof. exact losses_antitone. Qed.
+Print Assumptions C14_losses_antitone.
+
+Theorem C14_train_loss_in_meaning :
+  forall (F : rcfType) (n m p : nat) (env : env_mx F) (sp : bool) (j : nat),
+    let T := transform_prog n m p j sp (eX n m) in
+    train_loss_x_in n m p env sp j = fro2 (e_X n m env - eval_mx env (inverse_prog n m j sp T))
+    /\ train_loss_y_in n m p env sp j
+       = fro2 (e_Y n p env - eval_mx env (predict_t_prog n m p j sp T)).
+Proof. by []. Qed.
+Print Assumptions C14_train_loss_in_meaning.
+
+(* non-vacuity of the new hypotheses: feature space, a chain of length one *)
+Example C14_nonvacuous_feature_chain :
+  forall (F : rcfType) (mix : F), exists env : env_mx F,
+    [/\ nested_chain 2 1 env 0 1, fit_oracle 2 1 1 (0 + 1) env false, centred 2 1 env
+      & e_X 2 1 env != 0].
+Proof.
+  exact (fun F mix =>
+    let: And4 hn _ hc _ := ex_nested mix in
+    let: And4 _ _ hf (And3 _ _ hx) := ex_nonvacuous mix in
+    ex_intro _ (ex_env mix) (And4 (conj hn I) hf hc hx)).
+Qed.
+Print Assumptions C14_nonvacuous_feature_chain.
+
+(* ... and of the MASKED branch: tol = S_1, the component is zeroed by the code, every
+   hypothesis of C14_losses_monotone_both_spaces / C14_roundtrip_any_T still holds *)
+Example C14_nonvacuous_masked :
+  forall (F : rcfType) (mix : F), exists env : env_mx F,
+    [/\ nested_chain 2 1 env 0 1, fit_oracle 2 1 1 (0 + 1) env true, centred 2 1 env
+      & (forall i, ~~ (e_tol env < e_S (0 + 1) env i 0)) /\ e_X 2 1 env != 0].
+Proof. exact (fun F mix => ex_intro _ (ex_env_masked mix) (ex_masked mix)). Qed.
+Print Assumptions C14_nonvacuous_masked.
